@@ -1,6 +1,7 @@
 """Per-property plans: which flow-A configurations are model-checked, which cases are executed,
 which judge reasons decide the property."""
 import gen
+import examples
 import vlib
 
 TREE_INVS = ["Den", "AcyclicInv", "UnifiedIdentical", "NeqNormal", "UserBalance", "ExtensionExact", "EmitCase"]
@@ -140,6 +141,7 @@ def plan_c02(ctx):
         nv = rng.randint(1, 4)
         add(ctx, [{"id": "C02-r-s%d" % i, "kind": "store", "vars": list(range(1, nv + 1)), "k": 0,
                    "ops": gen.store_ops(rng, nv, rng.randint(2, 7), rng.randint(1, 3))}])
+    add(ctx, examples.all_examples("C02", ["diseq"]))     # /repo/examples/diseq.rs
     with_engine_records(ctx, every=T(ctx, 2, 8))
 
 
@@ -380,6 +382,7 @@ def plan_c06(ctx):
         add(ctx, [query(ctx, "C06-infm-%d" % i, 2, [["call", "member", [["num", 1], ["var", 1]]],
                                                     ["call", "append", [["var", 2], ["list", [["num", 2]]], ["var", 1]]]][:rng.randint(1, 2)],
                         take=rng.randint(2, 5), fuel=9)])
+    add(ctx, examples.all_examples("C06", ["simple", "tree_nodes"]))   # /repo/examples as cases
     with_engine_records(ctx, every=T(ctx, 1, 4))
 
 
@@ -602,8 +605,12 @@ def plan_c12(ctx):
                 bodies.append([["call", "member", [["var", x], gen.small_list(rng, gen.TermGen(rng, [], compounds=False, syms=False, nums=[1, 2, 3]))]]])
             elif r < 0.7:
                 bodies.append([["neq", ["var", x], ["num", rng.randint(1, 3)]]])
-            else:
+            elif r < 0.88:
                 bodies.append([["conde", [[["eq", ["var", x], ["num", 1]]], [["eq", ["var", x], ["num", 2]]]]]])
+            else:
+                # a body that is statically fail / succeed when the goal is built (constant folding of Conj)
+                bodies.append(rng.choice([[["fail"]], [["eq", ["var", x], ["num", 1]], ["fail"]], [["succeed"]],
+                                          [["succeed"], ["neq", ["var", x], ["num", 2]]]]))
         pre = gen.search_program(rng, nq, rng.randint(0, 2), lib=False)
         explicit = []
         for t in coll:
@@ -711,12 +718,16 @@ def plan_c09(ctx):
     r = live_mc(ctx, "grow", "GrowScope", False)
     for c in live_cases(ctx, r, "lazy"):
         c["take"] = (c["take"] - 10) // 3
+        # only termination is judged here: WHICH answers come first is not part of C09 (a different but
+        # fair interleaving would be right), so the per-branch needs of C07 are not carried over
+        c.pop("need", None)
         if c["take"] > 0:
             add(ctx, [c])
     # ... also when a disjunct is a depth-first block (its steps must stay single steps)
     r = live_mc(ctx, "fin", "FinScope", True)
     for c in live_cases(ctx, r, "lazyd"):
         c["take"] = (c["take"] - 10) // 3
+        c.pop("need", None)
         if c["take"] > 0 and "dfs" in vlib.goal_tags(c):
             add(ctx, [c])
     # fusedness: finite programs, four more next() calls after the first None
@@ -874,6 +885,12 @@ def plan_fd(ctx):
         body, nv = gen.fd_collapse_program(rng)
         add(ctx, [{"id": "%s-col-%d" % (ctx["prop"], i), "kind": "program", "mode": "query",
                    "qvars": list(range(1, nv + 1)), "body": body, "after": 1}])
+    for i in range(T(ctx, 150, 3000)):
+        goals, nq, aliases = gen.fd_alias_program(rng)
+        rng.shuffle(goals)
+        add(ctx, [{"id": "%s-al-%d" % (ctx["prop"], i), "kind": "program", "mode": "query", "qvars": list(range(1, nq + 1)),
+                   "body": [["fresh", aliases, goals]], "after": 1}])
+    add(ctx, examples.all_examples(ctx["prop"], ["nqueens"], thorough=ctx["tier"] == "thorough"))   # /repo/examples/n-queens.rs
     # the labelling pipeline step by step (programs without the arithmetic propagators, whose strength the
     # specification deliberately does not copy)
     with_engine_records(ctx, every=T(ctx, 2, 10), extra=FD_ENGINE_TAGS)
@@ -1027,6 +1044,21 @@ def plan_c04(ctx):
         for j, body in enumerate(variants):
             c = query(ctx, "%s-p%d" % (g, j), nv, body, group=g, after=1)
             if j == len(variants) - 1:
+                c["gcheck"] = "same_bag"
+            add(ctx, [c])
+    # a value reaching a constrained variable through an alias, the domain arriving at any time:
+    # every order of the four goals (a sample of the orders of the seven goals with two variables)
+    import itertools
+    for i in range(T(ctx, 14, 250)):
+        goals, nq, aliases = gen.fd_alias_program(rng)
+        if len(goals) <= 4:
+            orders = [list(p) for p in itertools.permutations(goals)]
+        else:
+            orders = [goals] + [rng.sample(goals, len(goals)) for _ in range(T(ctx, 11, 23))]
+        g = "C04-al%d" % i
+        for j, body in enumerate(orders):
+            c = query(ctx, "%s-p%d" % (g, j), nq, [["fresh", aliases, body]], group=g, after=1)
+            if j == len(orders) - 1:
                 c["gcheck"] = "same_bag"
             add(ctx, [c])
 
@@ -1255,6 +1287,7 @@ def plan_c23(ctx):
             i = j
         add(ctx, keep)
     ctx["prop"] = real
+    add(ctx, examples.all_examples("C23"))     # the repository's example programs
     # library relations and term/domain operations
     rng = ctx["rng"]
     sub = {"prop": "C24", "tier": ctx["tier"], "seed": ctx["seed"], "rng": rng, "mc": [], "cases": [], "notes": []}
